@@ -186,8 +186,16 @@ def _consumes(tok):
 def _run_prefix(spec, toks, k):
     harness.reset_globals()
     ctx = harness.fresh_ctx()
-    stack = [elemargs.build(spec, ctx), elemargs.build(spec, ctx)]
-    ctx.stacks.append(stack)
+    if spec[0] == "inf":
+        # an infinite list made by the interpreter itself (primes, naturals, ...): two independent instances
+        stack = []
+        ctx.stacks.append(stack)
+        r0 = harness.exec_py(_code(spec[1] + spec[1]), stack, ctx, budget=100_000, wall=10)
+        if r0.exc is not None or len(stack) != 2:
+            return None
+    else:
+        stack = [elemargs.build(spec, ctx), elemargs.build(spec, ctx)]
+        ctx.stacks.append(stack)
     ns = None
     for tok in toks[:k]:
         if tok == PEEK:
@@ -199,17 +207,18 @@ def _run_prefix(spec, toks, k):
             except BaseException:  # noqa: BLE001
                 return None
             continue
-        r = harness.exec_py(_code(tok), stack, ctx, budget=200_000, wall=10, ns=ns)
+        r = harness.exec_py(_code(tok), stack, ctx, budget=(25_000 if spec[0] == "inf" else 200_000), wall=10, ns=ns)
         if r.exc is not None:
             return None
         ns = r.ns
     return stack, ctx, ns
 
 
-def _snapshot(stack, ctx, ns):
-    vals = [norm(x, cap=300) for x in stack]
-    state = {"register": norm(ctx.register, cap=300), "global_array": norm(ctx.global_array, cap=300),
-             "x": norm((ns or {}).get("VAR_x", 0), cap=300)}
+def _snapshot(stack, ctx, ns, cap=300):
+    with harness.watchdog(20), harness.fuel(3_000_000 if cap > 20 else 60_000):
+        vals = [norm(x, cap=cap) for x in stack]
+        state = {"register": norm(ctx.register, cap=cap), "global_array": norm(ctx.global_array, cap=cap),
+                 "x": norm((ns or {}).get("VAR_x", 0), cap=cap)}
     return vals, state
 
 
@@ -222,8 +231,8 @@ def check_timing(spec, toks):
         if run is None:
             return ("discard", "raised") if k == 0 or prev is None else None
         try:
-            vals, state = _snapshot(*run)
-        except Exception:  # noqa: BLE001
+            vals, state = _snapshot(*run, cap=(14 if spec[0] == "inf" else 300))
+        except BaseException:  # noqa: BLE001  (looking at a value ran out of budget: no claim)
             return None
         if prev is not None:
             pvals, pstate = prev
@@ -231,7 +240,7 @@ def check_timing(spec, toks):
             keep = max(0, len(pvals) - _consumes(tok))
             if vals[:keep] != pvals[:keep]:
                 i = next(j for j in range(keep) if j >= len(vals) or vals[j] != pvals[j])
-                return (f"C10:timing:{tok}", f"stack=[v,v] with v={spec!r}, program {''.join(t if t != PEEK else "<peek>" for t in toks[:k])!r}: stack entry {i}, which {tok!r} does not consume, "
+                return (f"C10:timing:{tok.replace(' ', '_')}", f"stack=[v,v] with v={spec!r}, program {''.join(t if t != PEEK else "<peek>" for t in toks[:k])!r}: stack entry {i}, which {tok!r} does not consume, "
                         f"denotes {harness.jsonable(pvals[i])!r:.160} when observed before {tok!r} and "
                         f"{harness.jsonable(vals[i] if i < len(vals) else 'nothing')!r:.160} when first observed after it")
             for name, mut in (("register", "£"), ("global_array", "⅛¼"), ("x", "→x")):
@@ -242,7 +251,9 @@ def check_timing(spec, toks):
     return None
 
 
-STATE_ALPHABET = ["¾", "¥", "←x", "⅛", "¼", "£", "→x", ":", "1", "Ṙ", "_", PEEK, "$", "L"]
+STATE_ALPHABET = ["¾", "¥", "←x", "⅛", "¼", "£", "→x", ":", "1", "Ṙ", "_", PEEK, "$", "L", "0 7Ȧ"]
+INF_MAKERS = ["Þp", "Þ∞", "ÞF", "Þ!", "⁽›1Ḟ", "Þp2Ḟ"]
+INF_POOL = [":", "D", "_", "$", "£", "¥", "→x", "←x", "⅛", "¾", PEEK, PEEK, "10c", "12c", "3c", "4Ẏ", "5i", "Ḣ", "2Ḟ", "1+", "d", "h", "3ȯ", "ƛd;", "'∷;", "z", "2ẇ", "Ṙ"]
 
 
 def _shard_timing_exh(rec, arg):
@@ -266,6 +277,29 @@ def _shard_timing_exh(rec, arg):
                 rec.fail(r[0], {"kind": "timing", "spec": elemargs.tolist(spec), "toks": list(toks)}, r[1])
 
 
+INF_ALPHABET = [":", "D", "$", PEEK, "10c", "12c", "4Ẏ", "5i", "_", "£", "¥", "Ḣ", "1+"]
+
+
+def _shard_timing_inf_exh(rec, arg):
+    import itertools
+
+    shard, nshards, maxlen = arg
+    i = 0
+    for mk in INF_MAKERS:
+        for L in range(1, maxlen + 1):
+            for toks in itertools.product(INF_ALPHABET, repeat=L):
+                i += 1
+                if i % nshards != shard:
+                    continue
+                r = check_timing(("inf", mk), list(toks))
+                if r and r[0] == "discard":
+                    rec.discard("timing-" + r[1])
+                    continue
+                rec.case(nontrivial=L >= 2, cls=["timing-exhaustive", "timing-infinite-list"])
+                if r:
+                    rec.fail(r[0] + ":infinite", {"kind": "timing", "spec": ["inf", mk], "toks": list(toks)}, r[1])
+
+
 def _shard_timing(rec, arg):
     seed, n = arg
 
@@ -281,6 +315,18 @@ def _shard_timing(rec, arg):
             rec.sample({"timing-program": "".join(toks), "value": elemargs.tolist(spec)})
 
     campaign.hyp_run(t, {"spec": elemargs.LST, "toks": st.lists(st.sampled_from(TIMING_POOL + STATE_ALPHABET * 3), min_size=1, max_size=5)}, seed, n)
+
+    def t_inf(mk, toks):
+        spec = ("inf", mk)
+        r = check_timing(spec, toks)
+        if r and r[0] == "discard":
+            rec.discard("timing-" + r[1])
+            return
+        rec.case(key=(mk, tuple(toks)), nontrivial=len(toks) >= 2, cls=["timing-tier", "timing-infinite-list"])
+        if r:
+            rec.fail(r[0] + ":infinite", {"kind": "timing", "spec": ["inf", mk], "toks": list(toks)}, r[1])
+
+    campaign.hyp_run(t_inf, {"mk": st.sampled_from(INF_MAKERS), "toks": st.lists(st.sampled_from(INF_POOL), min_size=2, max_size=5)}, seed + 3, max(40, n // 3))
 
 
 # ---- shards -------------------------------------------------------------------
@@ -361,6 +407,9 @@ def run(rec, tier, seed):
     tl = 4 if quick else 5
     campaign.parallel(rec, _shard_timing_exh, [(s, ns, tl) for s in range(ns)])
     rec.exhaustive.append(f"observation-timing tier: all programs of length 2..{tl} over {len(STATE_ALPHABET)} state/copy operations on [v, v]")
+    il = 2 if quick else 3
+    campaign.parallel(rec, _shard_timing_inf_exh, [(s, ns, il) for s in range(ns)])
+    rec.exhaustive.append(f"observation-timing tier on infinite lists: {len(INF_MAKERS)} makers x all programs of length<={il} over {len(INF_ALPHABET)} operations")
     n_t = 200 if quick else 6000
     campaign.parallel(rec, _shard_timing, [(seed * 1000 + 50 + i, n_t) for i in range(campaign.NCPU)])
     rec.notes["skipped"] = SKIP
@@ -386,11 +435,16 @@ def replay(case):
         r = check_copy(case["op"], spec, case["elems"])
     elif case.get("kind") == "timing":
         toks = case["toks"]
-        if not isinstance(toks, list) or not toks or any(t not in TIMING_POOL + STATE_ALPHABET for t in toks):
+        if not isinstance(toks, list) or not toks or any(t not in TIMING_POOL + STATE_ALPHABET + INF_POOL + INF_ALPHABET for t in toks):
             return None
-        spec = elemargs.totuple(case["spec"])
-        if not _is_list(spec):
-            return None
+        if isinstance(case["spec"], list) and case["spec"][:1] == ["inf"]:
+            if len(case["spec"]) != 2 or case["spec"][1] not in INF_MAKERS:
+                return None
+            spec = ("inf", case["spec"][1])
+        else:
+            spec = elemargs.totuple(case["spec"])
+            if not _is_list(spec):
+                return None
         r = check_timing(spec, toks)
     else:
         return None
